@@ -13,6 +13,7 @@ import (
 	"fmt"
 	"iter"
 	"strings"
+	"time"
 
 	"ebuverif/internal/h"
 	"ebuverif/internal/stores"
@@ -148,7 +149,8 @@ func (o hop) String() string {
 
 type hcase struct {
 	Kind    string `json:"store"`
-	Preload int    `json:"preload"` // A-events published (and persisted) before the history starts
+	Preload int    `json:"preload"`             // A-events published (and persisted) before the history starts
+	Timeout bool   `json:"persistence_timeout"` // the buses are built with WithPersistenceTimeout(1h)
 	Ops     []hop  `json:"ops"`
 	At      int    `json:"fault_at"`
 	Fault   string `json:"fault"`
@@ -163,6 +165,9 @@ func (c hcase) String() string {
 	if c.Preload > 0 {
 		s = fmt.Sprintf("store=%s preload=%d [%s]", c.Kind, c.Preload, strings.Join(p, " "))
 	}
+	if c.Timeout {
+		s += " WithPersistenceTimeout(1h)"
+	}
 	if c.At != 0 {
 		s += fmt.Sprintf(" fault=%s@op%d", c.Fault, c.At)
 	}
@@ -176,18 +181,19 @@ type deliv struct {
 }
 
 type world struct {
-	med   *stores.Medium
-	hd    *stores.Handle
-	fs    *fstore
-	bus   *eventbus.EventBus
-	run   int
-	subd  [2]bool // subscribed in the current run
-	got   [2][]deliv
-	maxSv [2]int // highest position ever saved (raw store), per id
-	lastS [2]int
-	n     int
-	out   []string
-	subEr [2]bool
+	timeout bool
+	med     *stores.Medium
+	hd      *stores.Handle
+	fs      *fstore
+	bus     *eventbus.EventBus
+	run     int
+	subd    [2]bool // subscribed in the current run
+	got     [2][]deliv
+	maxSv   [2]int // highest position ever saved (raw store), per id
+	lastS   [2]int
+	n       int
+	out     []string
+	subEr   [2]bool
 }
 
 func (w *world) bad(f string, a ...any) { w.out = append(w.out, fmt.Sprintf(f, a...)) }
@@ -245,7 +251,11 @@ func (w *world) newBus() {
 			fstoreStream
 		}{w.fs, fstoreStream{w.fs}}
 	}
-	w.bus = eventbus.New(eventbus.WithStore(st), eventbus.WithSubscriptionStore(w.fs))
+	opts := []eventbus.Option{eventbus.WithStore(st), eventbus.WithSubscriptionStore(w.fs)}
+	if w.timeout {
+		opts = append(opts, eventbus.WithPersistenceTimeout(time.Hour))
+	}
+	w.bus = eventbus.New(opts...)
 }
 
 func (w *world) observeSaved(step string) {
@@ -305,7 +315,7 @@ func runHistory(c hcase) []string {
 		vrt.MachineryFault("%v", err)
 	}
 	defer hd.Close()
-	w := &world{med: med, hd: hd}
+	w := &world{med: med, hd: hd, timeout: c.Timeout}
 	w.fs = &fstore{st: hd.Store, str: hd.Stream, sub: hd.Sub, at: c.At, kind: c.Fault}
 	w.newBus()
 	at := w.fs.at
@@ -722,6 +732,21 @@ func run(c *h.Check) {
 			}
 			for _, m := range runHistory(hc) {
 				c.Violate("history", sigOf(hc, m), hc.String()+"\n"+m, hc)
+			}
+		}
+		// a bus with a (generous) persistence timeout configured: nothing may change
+		if k != "durable" {
+			for _, ops := range histories(3) {
+				idx++
+				if !c.Mine(idx) {
+					continue
+				}
+				hc := hcase{Kind: k, Ops: ops, Timeout: true}
+				c.Count("evaluations", 1)
+				c.Count("nontrivial", 1)
+				for _, m := range runHistory(hc) {
+					c.Violate("history", sigOf(hc, m)+" (bus with WithPersistenceTimeout)", hc.String()+"\n"+m, hc)
+				}
 			}
 		}
 		// logs that cross the 9 -> 10 position boundary (offsets change length)
